@@ -71,6 +71,7 @@ type opResult struct {
 }
 
 type world struct {
+	both bool
 	s    *sched
 	root *gorm.DB // session-level mode: every operation derives its own Session{PrepareStmt: true} from here
 	db   *gorm.DB
@@ -79,7 +80,7 @@ type world struct {
 	path string
 }
 
-func openWorld(c *core.Ctx, s *sched, sessionLevel bool, maxOpen int) *world {
+func openWorld(c *core.Ctx, s *sched, sessionLevel bool, maxOpen int, both bool) *world {
 	path := filepath.Join(c.Dir, fmt.Sprintf("c14_%d_%d.db", c.Case, s.r.Intn(1<<30)))
 	rec := recdrv.NewRecorder()
 	rec.CtxKey = wkey
@@ -93,11 +94,11 @@ func openWorld(c *core.Ctx, s *sched, sessionLevel bool, maxOpen int) *world {
 		panic(err)
 	}
 	pool := &poolWrap{db: sdb, s: s}
-	db, err := gorm.Open(dialects.VSQLite{Dialector: sqlite.Dialector{Conn: pool}}, &gorm.Config{PrepareStmt: !sessionLevel, Logger: logger.Discard})
+	db, err := gorm.Open(dialects.VSQLite{Dialector: sqlite.Dialector{Conn: pool}}, &gorm.Config{PrepareStmt: !sessionLevel || both, Logger: logger.Discard})
 	if err != nil {
 		panic(err)
 	}
-	w := &world{s: s, db: db, rec: rec, path: path}
+	w := &world{s: s, db: db, rec: rec, path: path, both: both}
 	if sessionLevel {
 		tx := db.Session(&gorm.Session{PrepareStmt: true})
 		w.psdb, _ = tx.Statement.ConnPool.(*gorm.PreparedStmtDB)
@@ -105,6 +106,10 @@ func openWorld(c *core.Ctx, s *sched, sessionLevel bool, maxOpen int) *world {
 		// every operation derives a session of its own from the root handle
 		w.db = tx
 		w.root = db
+		if both {
+			// the application resets / closes the manager it got from the configuration
+			w.psdb, _ = db.ConnPool.(*gorm.PreparedStmtDB)
+		}
 	} else {
 		w.psdb, _ = db.ConnPool.(*gorm.PreparedStmtDB)
 	}
@@ -159,6 +164,10 @@ func (w *world) runOp(worker int, op opKind) opResult {
 	db := w.db.WithContext(ctx)
 	if w.root != nil {
 		db = w.root.Session(&gorm.Session{PrepareStmt: true}).WithContext(ctx)
+		if w.both && (worker+len(op))%2 == 0 {
+			// configuration and session level together: some operations use the configured handle as it is
+			db = w.root.WithContext(ctx)
+		}
 	}
 	r := opResult{op: op}
 	w.s.mu.Lock()
@@ -244,6 +253,7 @@ type scenario struct {
 	parkHooks    bool
 	badconnTx    bool
 	holdBack     bool
+	both         bool // PrepareStmt in the configuration AND a Session{PrepareStmt: true} per operation: one cache
 }
 
 func (sc scenario) String() string {
@@ -255,8 +265,8 @@ func (sc scenario) String() string {
 		}
 		ws = append(ws, fmt.Sprintf("w%d[%s]", i+1, strings.Join(ops, ",")))
 	}
-	return fmt.Sprintf("%s resets=%d closeEarly=%v sessionLevel=%v maxOpen=%d prepareFailures<=%d badConn<=%d hookWindows=%v badConnInTx=%v holdBackOneExecution=%v",
-		strings.Join(ws, " "), sc.resets, sc.closeEarly, sc.sessionLevel, sc.maxOpen, sc.failBudget, sc.badconn, sc.parkHooks, sc.badconnTx, sc.holdBack)
+	return fmt.Sprintf("%s resets=%d closeEarly=%v sessionLevel=%v maxOpen=%d prepareFailures<=%d badConn<=%d hookWindows=%v badConnInTx=%v holdBackOneExecution=%v configAndSession=%v",
+		strings.Join(ws, " "), sc.resets, sc.closeEarly, sc.sessionLevel, sc.maxOpen, sc.failBudget, sc.badconn, sc.parkHooks, sc.badconnTx, sc.holdBack, sc.both)
 }
 
 func genScenario(r *core.Rand) scenario {
@@ -272,6 +282,7 @@ func genScenario(r *core.Rand) scenario {
 	sc.resets = r.Intn(3)
 	sc.closeEarly = r.Chance(1, 3)
 	sc.sessionLevel = r.Chance(1, 4)
+	sc.both = sc.sessionLevel && r.Bool()
 	sc.failBudget = r.Intn(3)
 	sc.badconn = r.Intn(2)
 	sc.parkHooks = r.Bool()
@@ -298,7 +309,7 @@ func execute(c *core.Ctx, sc scenario, r *core.Rand, forced []int) outcome {
 	s.badconnTxFirst = sc.badconnTx
 	s.holdBack = sc.holdBack
 	s.systematic = forced != nil
-	w := openWorld(c, s, sc.sessionLevel, sc.maxOpen)
+	w := openWorld(c, s, sc.sessionLevel, sc.maxOpen, sc.both)
 	out := outcome{sc: sc, results: make([][]opResult, len(sc.workers))}
 	defer w.close()
 	var wg sync.WaitGroup
@@ -611,6 +622,11 @@ func report(c *core.Ctx, sc scenario, out outcome) {
 				}
 			case strings.Contains(p, "still open"):
 				sig = "leak"
+				if sc.both && sc.closeEarly {
+					// Close() of the configuration's manager while sessions derived earlier are still in use:
+					// they do not notice it and go on preparing into the shared map (KF-C14-3)
+					sig = "leak:config-close-with-live-sessions"
+				}
 			case strings.Contains(p, "was prepared"):
 				sig = "duplicate-prepare"
 			case strings.Contains(p, "returned a zero *sql.Row"):
@@ -643,7 +659,7 @@ func postChild(dir string, batch int, res *core.Result) { core.ScanRaceLogs(dir,
 var Engine = &core.Engine{
 	ID:    "C14",
 	Level: "exploration",
-	Rule: "scenario = 2..4 workers x 1..3 operations (raw queries on two texts, model query, update, Row() reads of the worker's own counter, transactions with one and two statements incl. increment-then-Row()) x 0..2 Reset() + Close() (early or at the end) x {config-level PrepareStmt, session-level PrepareStmt with a session derived per operation} x prepare failures (<=2) x ErrBadConn (<=1) x parking of the three windows inside prepare() on/off; four dedicated scenarios (single-connection pool, one text + failing preparation, Reset during in-flight preparations, one execution held in flight at the driver until everybody else has returned while another execution of the same statement meets a bad connection); " +
+	Rule: "scenario = 2..4 workers x 1..3 operations (raw queries on two texts, model query, update, Row() reads of the worker's own counter, transactions with one and two statements incl. increment-then-Row()) x 0..2 Reset() + Close() (early or at the end) x {config-level PrepareStmt, session-level PrepareStmt with a session derived per operation, both at once (one shared cache)} x prepare failures (<=2) x ErrBadConn (<=1) x parking of the three windows inside prepare() on/off; four dedicated scenarios (single-connection pool, one text + failing preparation, Reset during in-flight preparations, one execution held in flight at the driver until everybody else has returned while another execution of the same statement meets a bad connection); " +
 		"one schedule per case: every gorm-level PrepareContext, every prepared-statement execution at the driver and every hook window is parked and released one at a time in a seeded order; distinct = the literal sequence of released calls and controller actions; every schedule is non-trivial (at least two workers share a handle)",
 	Assumptions: []string{
 		"schedules are explored at the driver / ConnPool boundary and at three hook windows; interleavings inside database/sql and the Go runtime are left to the race detector and natural scheduling",
